@@ -46,14 +46,18 @@ def hdrOp : Op := fun args =>
     match parseNat tfs, parseNat rts, parseNat ys, hexToBytes ds, parseNumCols cs with
     | some tf, some rt, some y, some desc, some cols =>
       let t := newTimeBucketInfo typeSize tf desc y cols rt
-      let hy := wfHyps t
+      -- V = `TimeBucketInfo.Validate() == nil` (`-` = the source has no such method)
+      let v := if hasInfoValidate then (if validSchema methodFlags t then "1" else "0") else "-"
+      -- the property speaks about schemas that can be created: `Validate` accepts them
+      let dailyTooLong := t.recordType == 0 && t.timeframe == dayNs && t.recordLength + t.types.length > headersize - typesOffset
+      let sp := if (wfHyps t).isEmpty && !dailyTooLong then "\tS:~P=1 V=1" else "\tS:~V=0"
       match encode t with
-      | none => s!"M:panic:index\tS:~P=1\tH:{",".intercalate hy}"
+      | none => s!"M:panic:index V={v}{sp}"
       | some b =>
         match decode b with
-        | none => s!"M:enc={showRuns b} dec=fatal P=0\tS:~P=1\tH:{",".intercalate hy}"
+        | none => s!"M:enc={showRuns b} dec=fatal P=0 V={v}{sp}"
         | some t' =>
-          s!"M:enc={showRuns b} dec={showTBI t'} P={if { t' with description := [] } == { t with description := [] } then 1 else 0}\tS:~P=1\tH:{",".intercalate hy}"
+          s!"M:enc={showRuns b} dec={showTBI t'} P={if { t' with description := [] } == { t with description := [] } then 1 else 0} V={v}{sp}"
     | _, _, _, _, _ => badArgs
   | _ => badArgs
 
@@ -78,11 +82,16 @@ structure Run where
   spec : List String
   hyps : List String
 
-def storableHyps (cols : List (Str × Nat)) : List String :=
+/-- why a schema cannot be stored faithfully (must then be REJECTED at creation): too many
+    columns, a name that does not fit or loses a NUL, or — fixed-length daily bucket — a record
+    whose slot 0 (January 1) reaches back into the used part of the header -/
+def storableHyps (tf : Nat) (isVar : Bool) (cols : List (Str × Nat)) : List String :=
   let cs := cols.filter (fun c => c.1 != epochName)
+  let recLen := alignedSize ((cs.map (fun c => typeSize c.2)).foldl (· + ·) 0) + 8
   (if cs.length > maxElems then ["too_many_columns"] else []) ++
   (if cs.any (fun c => c.1.length > nameBytes) then ["name_too_long"] else []) ++
-  (if cs.any (fun c => edgeNul c.1) then ["name_edge_nul"] else [])
+  (if cs.any (fun c => edgeNul c.1) then ["name_edge_nul"] else []) ++
+  (if !isVar && tf == dayNs && recLen + cs.length > headersize - typesOffset then ["daily_record_too_long"] else [])
 
 def askedInfo (a : Asked) : String :=
   showInfo a.tf (if a.isVar then 1 else 0) (a.cols.filter (fun c => c.1 != epochName))
@@ -99,10 +108,13 @@ def step (nowYear : Nat) (r : Run) (s : String) : Option Run :=
     match resolveCols cols, keyTf key with
     | some dsv, some tf =>
       if res == "err:exists" then pure { r with st := st, out := r.out ++ [out], spec := r.spec ++ [out] } else
-      let hy := storableHyps dsv
-      let a : Asked := ⟨key, tf, rt == "v", dsv, hy.isEmpty⟩
-      pure { st := st, asked := r.asked ++ [a], out := r.out ++ [out],
-             spec := r.spec ++ [if hy.isEmpty then "C=ok" else "C=rejected"], hyps := r.hyps ++ hy }
+      let hy := storableHyps tf (rt == "v") dsv
+      if !hy.isEmpty then
+        -- must be refused, and nothing of it may exist afterwards
+        pure { r with st := st, out := r.out ++ [out], spec := r.spec ++ ["C=err:other"] }
+      else
+      let a : Asked := ⟨key, tf, rt == "v", dsv, true⟩
+      pure { r with st := st, asked := r.asked ++ [a], out := r.out ++ [out], spec := r.spec ++ ["C=ok"] }
     | _, _ => pure { r with st := st, out := r.out ++ [out], spec := r.spec ++ [out] }
   | ["W", key, rt, cs, rws] => do
     let cols ← parseStrCols cs
@@ -116,20 +128,19 @@ def step (nowYear : Nat) (r : Run) (s : String) : Option Run :=
       -- the client writes the schema it created ⇒ must be accepted; a 1D record dated in slot 0
       -- whose slot reaches back into the used part of the header is the January-1 hazard
       let same := a.cols.filter (fun c => c.1 != epochName) == dsv
-      let jan1 := !a.isVar && rows.any (fun rw => Mkts.Time.timeToIndex Mkts.Time.utc (rw.sec * 1000000000) a.tf == 0) &&
-        decide (headersize - recLenOf a < 312 + maxElems * nameBytes + (a.cols.filter (fun c => c.1 != epochName)).length)
-      pure { r with st := st, out := r.out ++ [out], spec := r.spec ++ [if same && a.storable then "W=ok" else out],
-                    hyps := r.hyps ++ (if jan1 && res == "ok" then ["jan1_record_overlaps_schema"] else []) }
+      pure { r with st := st, out := r.out ++ [out], spec := r.spec ++ [if same && a.storable then "W=ok" else out] }
     | none =>
       if known then pure { r with st := st, out := r.out ++ [out], spec := r.spec ++ [out] } else
       -- auto-create by the writer
       match keyTf key with
       | none => pure { r with st := st, out := r.out ++ [out], spec := r.spec ++ [out] }
       | some tf =>
-        let hy := storableHyps dsv
-        let a : Asked := ⟨key, tf, rt == "v", dsv, hy.isEmpty⟩
-        pure { st := st, asked := r.asked ++ [a], out := r.out ++ [out],
-               spec := r.spec ++ [if hy.isEmpty then "W=ok" else "W=rejected"], hyps := r.hyps ++ hy }
+        let hy := storableHyps tf (rt == "v") dsv
+        if !hy.isEmpty then
+          pure { r with st := st, out := r.out ++ [out], spec := r.spec ++ ["W=err:other"] }
+        else
+        let a : Asked := ⟨key, tf, rt == "v", dsv, true⟩
+        pure { r with st := st, asked := r.asked ++ [a], out := r.out ++ [out], spec := r.spec ++ ["W=ok"] }
   | ["R"] => pure { r with st := restart r.st, out := r.out ++ ["R=ok"], spec := r.spec ++ ["R=ok"] }
   | ["I", key] =>
     let (st, res) := info r.st key
